@@ -39,4 +39,14 @@ def forward (S : Nat → List α → List α) (budget : Nat) (initialSpeed inAre
     Except Err (Result α) :=
   Velo.forward fwdStep fwdSeed fwdTol S budget initialSpeed inArea usable
 
+/-- the calculation on a sequence object whose unit list is `units` at the time of the call - whatever the list was
+    before (units appended / inserted / exchanged / removed): the passes are read from the live list (`Velo.rollPasses`) -/
+def backwardSeq (S : Nat → List α → List α) (budget : Nat) (finalSpeed finalArea : α) (units : List (SeqUnit α)) :
+    Except Err (Result α) :=
+  backward S budget finalSpeed finalArea (rollPasses units)
+
+def forwardSeq (S : Nat → List α → List α) (budget : Nat) (initialSpeed inArea : α) (units : List (SeqUnit α)) :
+    Except Err (Result α) :=
+  forward S budget initialSpeed inArea (rollPasses units)
+
 end VeloGen
